@@ -10,7 +10,7 @@ RULE = ("cases: cs <n> / dcs <range_check> <hex> at 0xfc/0xfd/0xffff/0x10000/0xf
         "form and every truncation; tx <allow_witness> <tokens> builds a transaction object (with/without witnesses, empty vin/vout, "
         "empty witness items, extreme integers), serialises and reads it back; dtx <allow_witness> <hex> feeds bytes from an independent "
         "Python serialiser: basic and extended format, flags 0/2/3/0x81, superfluous witness, extended with empty vin, every truncation, "
-        "trailing bytes, non-canonical and oversize counts, random byte flips; hex/dhex, b64/db64, b32/db32, b58/db58, money/dmoney: lengths 0..40, "
+        "trailing bytes, non-canonical and oversize counts, random byte flips; dblock <allow_witness> <hex> headers + transaction vectors, truncated and with bad counts; hex/dhex, b64/db64, b32/db32, b58/db58, money/dmoney: lengths 0..40, "
         "leading zeros, all 256 characters in each position, padding variants, white space, NUL, max_ret_len boundaries. "
         "A case is non-trivial when its payload is not empty; distinct = distinct case lines.")
 ASSUMPTIONS = ["the Gallina models are hand transcriptions of serialize.h, primitives/transaction.h, util/strencodings.{h,cpp}, "
@@ -208,6 +208,19 @@ def gen(rng, tier):
     for t_ in T:
         for aw in (1, 0):
             C.append("dtx %d %s" % (aw, hx(t_)))
+    # ---------------- blocks: 80-byte header + vector of transactions
+    for k in range(0, 4):
+        hdr = struct.pack("<i", rng.choice([1, 2, 0x20000000, -1, -2**31, 2**31 - 1])) + rb(rng, 32) + rb(rng, 32) + struct.pack("<III", rng.getrandbits(32), rng.choice([0x207fffff, 0x1d00ffff, 0]), rng.getrandbits(32))
+        sel = [rng.choice(txs) for _ in range(k)]
+        for aw in (1, 0):
+            body = hdr + cs(len(sel)) + b"".join(t_.ser(bool(aw)) for t_ in sel)
+            C.append("dblock %d %s" % (aw, hx(body)))
+            C.append("dblock %d %s" % (aw, hx(body + b"\x01")))
+            if k == 1:
+                for cut in range(0, len(body), 1 if len(body) < 200 else 7):
+                    C.append("dblock %d %s" % (aw, hx(body[:cut])))
+        C.append("dblock 1 %s" % hx(hdr + b"\xfd\x01\x00" + b"".join(t_.ser(True) for t_ in sel[:1])))
+        C.append("dblock 1 %s" % hx(hdr + cs(MAXS + 1)))
     # ---------------- hex
     for n in list(range(0, 12)) + [32, 33, 64, 255]:
         C.append("hex %s" % hx(rb(rng, n)))
